@@ -317,7 +317,7 @@ func knownNonNilError(v ssa.Value) bool {
 		return true
 	case *ssa.UnOp:
 		// load of a package-level error variable (ErrCombineOverlap ...)
-		if g, ok := x.X.(*ssa.Global); ok && strings.HasPrefix(g.Name(), "Err") {
+		if g, ok := x.X.(*ssa.Global); ok && (strings.HasPrefix(g.Name(), "Err") || strings.HasPrefix(g.Name(), "err")) && errorSentinel(g) {
 			return true
 		}
 	}
@@ -547,4 +547,32 @@ func leaves(fl *Flow, v ssa.Value, at ssa.Instruction) []Leaf {
 	}
 	rec(v, fl.At(at))
 	return out
+}
+
+// errorSentinel: a package-level error variable initialised once, in the package
+// initialiser, with errors.New / fmt.Errorf, and never assigned elsewhere.
+func errorSentinel(g *ssa.Global) bool {
+	if g.Pkg == nil {
+		return false
+	}
+	n := 0
+	okInit := false
+	for _, m := range g.Pkg.Members {
+		fn, ok := m.(*ssa.Function)
+		if !ok {
+			continue
+		}
+		fns := append([]*ssa.Function{fn}, Closures(fn)...)
+		for _, f := range fns {
+			eachInstr(f, func(in ssa.Instruction) {
+				if st, ok := in.(*ssa.Store); ok && st.Addr == g {
+					n++
+					if f.Name() == "init" && knownNonNilError(st.Val) {
+						okInit = true
+					}
+				}
+			})
+		}
+	}
+	return n == 1 && okInit
 }
